@@ -1,27 +1,39 @@
 /-
-C03  Canonical documents parse to exactly the structure they spell (stage 1 of the class).
+C03  Canonical documents parse to exactly the structure they spell.
 
 `Doc` (Comrak/Canon/Doc.lean) is an inductive type of Markdown documents: paragraphs, ATX and
 setext headings, thematic breaks, fenced and indented code blocks, block quotes, tight and loose
-bullet / ordered lists (any nesting), with text (plain characters, backslash escapes, named and
-numeric character references, multi-byte characters), code spans, emphasis, strong emphasis,
-GFM strikethrough, inline links with titles, images, autolinks, hard and soft breaks.  `Doc.write` is the canonical writer,
-`Doc.toTree` the comrak AST the document spells, `Doc.refHtml` the reference renderer written
-from the specification, `Doc.ok` the decidable side condition that makes the spelling
-unambiguous (Comrak/Canon/Ok.lean lists its clauses).
+bullet / ordered lists (any nesting) with GFM task items, GFM tables with column alignments, HTML
+blocks (start condition 6), footnote definitions; with text (plain characters, backslash escapes,
+named and numeric character references, multi-byte characters), code spans, emphasis, strong
+emphasis, GFM strikethrough, inline and reference links with titles (definitions before or after
+use, label case variants, shadowed duplicates), images, autolinks, hard and soft breaks, footnote
+references.  `Doc.write` is the canonical writer, `Doc.toTree` the comrak AST the document spells
+(for footnotes: the tree after comrak's footnote pass - definitions moved to the end in the order
+of first reference, `ix` / `ref_num` / `total_references` filled in; for tables: the `NodeTable`
+counters as comrak fills them), `Doc.refHtml` the reference renderer written from the
+specifications, `Doc.ok` the decidable side condition that makes the spelling unambiguous
+(Comrak/Canon/Ok.lean lists its clauses).
 
 What is proved here, for all documents of any depth and size: the complete model of comrak's
-HTML formatter (Comrak/Html.lean, default options) applied to `toTree d` writes exactly
-`refHtml d`; `toTree d` satisfies the shape predicate of C04.  The remaining link,
+HTML formatter (Comrak/Html.lean, default options, i.e. safe mode: an HTML block is rendered as
+the omission comment) applied to `toTree d` writes exactly `refHtml d`, including the footnote
+section with its back-links, where the formatter's `footnote_ix` / `written_footnote_ix` state is
+followed through; `toTree d` satisfies the shape predicate of C04.  The remaining link,
 `parse_document (write d) = toTree d`, is the correspondence the harness checks on every run
 together with `markdown_to_html (write d) = refHtml d` on the real code.
 
+`Doc.toTreeP` adds source positions (see `toTreeP_erase_canon`); that they satisfy the range /
+nesting / order / slice oracles of C11 and C12 (`Doc.posOk`) is checked per generated document,
+not proved for all.
+
 The theorems carry the suffix `_canon`: the class is unbounded but it is not the whole language
-(HTML blocks, reference links, tables, task items, footnotes, empty list items, lazy
+(multi-paragraph footnotes, HTML blocks of the other start conditions, empty list items, lazy
 continuation lines and every non-canonical spelling are not in it).
 -/
-import Comrak.Lemmas.CanonBlk
+import Comrak.Lemmas.CanonFn
 import Comrak.Lemmas.CanonShape
+import Comrak.Lemmas.CanonPos
 import Comrak.Canon.Ok
 namespace Comrak.C03
 open Comrak Bytes Comrak.Canon
@@ -39,13 +51,35 @@ theorem block_canon (b : Blk) (h : b.safe = true) (cx : Ctx) (lf : Bool) (hp : o
   blk_goal b h cx lf hp
 
 /-- The statement under the part of `Doc.ok` it needs (`Doc.safe`: no URL that comrak's safe mode
-    blanks, no `'` in URLs, info string not `math`). -/
+    blanks, no `'` in URLs, info string not `math`, footnote names of letters and digits). -/
 theorem refHtml_eq_renderHtml_of_safe (d : Doc) (h : d.safe = true) :
     renderHtml {} {} d.toTree = d.refHtml :=
   doc_goal d h
 
-/-- **C03 (canonical class, stage 1).** For every canonical document, of any nesting depth,
-    tightness, start number, fence length: the model of comrak's HTML formatter applied to the
+/-- A table in any position: `<table>`, `<thead>`, `<tbody>` only when there are body rows,
+    `align` attributes per column. -/
+theorem table_canon (al : List Align) (h : List Inls) (rows : List (List Inls))
+    (hh : h.all Inls.safe = true) (hr : rows.all (fun r => r.all Inls.safe) = true) (cx : Ctx) (lf : Bool) :
+    R (renderT {} {} cx (Blk.table al h rows).toTree) lf (crB lf ++ refTable al h rows) :=
+  table_goal al h rows hh hr cx lf
+
+/-- The items of a list, with and without task markers (`<li><input type="checkbox" .. /> `). -/
+theorem items_canon (items : Items) (h : items.safe = true) (m : Marker) (k : Nat) (L : NList)
+    (g prev : Option NodeValue) (idx : Nat) :
+    R (renderF {} {} (some (.list L)) g prev idx (items.toForest m k)) true (items.html L.tight) :=
+  items_goal items h m k L g prev idx
+
+/-- The footnote section: started from a state in which `k` notes have been written, the
+    formatter model writes the remaining definitions with their back-links and ends with
+    `footnote_ix = written_footnote_ix = k + number of notes`. -/
+theorem footnotes_canon (notes : List Note) (h : notes.all Note.safe = true) (g prev : Option NodeValue)
+    (idx k : Nat) (an : List Bytes) :
+    RT (renderF {} {} (some .document) g prev idx (notesForest notes)) ⟨true, k, k, an⟩
+      ⟨true, k + notes.length, k + notes.length, an⟩ (notesFrom k notes) :=
+  notes_goal notes h g prev idx k an
+
+/-- **C03 (canonical class).** For every canonical document, of any nesting depth,
+    tightness, start number, fence length, table size, number of footnotes: the model of comrak's HTML formatter applied to the
     tree the document spells equals the independent reference renderer. -/
 theorem refHtml_eq_renderHtml_canon (d : Doc) (h : d.ok = true) :
     renderHtml {} {} d.toTree = d.refHtml := by
@@ -57,19 +91,28 @@ theorem shape_canon (d : Doc) (h : d.ok = true) : Shape d.toTree = true := by
   simp only [Doc.ok, Bool.and_eq_true] at h
   exact doc_shape d h.1
 
+/-- Source positions (serves C11/C12): `Doc.toTreeP d` (Comrak/Canon/Pos.lean) carries, for every node
+    of a kind comrak documents as reliable, the line/column span the node's own text occupies in
+    `write d`; the harness compares these with the positions of the real parser on every run.  It
+    is the tree of the theorems above with positions filled in, nothing else. -/
+theorem toTreeP_erase_canon (d : Doc) : eraseT d.toTreeP = d.toTree := doc_erase d
+
 /-- The hypothesis on the info string is necessary: comrak renders a code block whose info string
     is exactly `math` with an extra `data-math-style` attribute even with every extension off
     (the specification leaves the treatment of info strings open, so this is not a finding). -/
 theorem math_info_counterexample :
     ∃ d : Doc, d.wf = true ∧ renderHtml {} {} d.toTree ≠ d.refHtml :=
-  ⟨⟨.cons (.fence 0x60 3 mathInfo [[0x78]]) .nil, []⟩, by decide, by decide⟩
+  ⟨{ blocks := .cons (.fence 0x60 3 mathInfo [[0x78]]) .nil }, by decide, by decide⟩
 
 /-! Non-vacuity: a document with an ATX heading, a two-line setext heading with strikethrough, an
 indented code block, a loose ordered list starting at 7 whose first item
-holds a paragraph with emphasis, a link with title, an escape, an entity and a hard break, a
-nested tight bullet list and a block quote with a fenced code block; and a thematic break. -/
-def sampleDoc : Doc :=
-  ⟨Blks.ofList
+holds a paragraph with emphasis, a link with title, an escape, an entity, a hard break and two
+footnote references, a nested tight bullet list and a block quote with a fenced code block; a
+tight task list; a table with alignments, an empty cell and a second reference to the first note;
+an HTML block; a thematic break; three footnote definitions written in another order than they are
+numbered, one of them unused. -/
+def sampleBlocks : Blks :=
+  Blks.ofList
     [ .heading 2 (Inls.ofList [.text [.ch 0x54, .esc 0x2A], .code 2 [0x61, 0x60, 0x62]]),
       .setext 2 4 (Inls.ofList [.text [.ch 0x41], .soft, .strike (Inls.ofList [.text [.ch 0x64]])]),
       .icode [[0x78], [], [0x20, 0x79]],
@@ -79,24 +122,57 @@ def sampleDoc : Doc :=
               [ .para (Inls.ofList
                   [ .text [.ch 0x61, .ch 0x20],
                     .emph false (Inls.ofList [.text [.ch 0x62]]),
+                    .fnref [0x6E] 1 1,
                     .text [.ch 0x20, .ent 0, .esc 0x5B],
                     .hard true,
                     .link [0x2F, 0x75, 0x3F, 0x61, 0x26, 0x62] [0x74, 0x3C] false (.ref [0x52, 0x31] [0x72, 0x31] false)
                       (Inls.ofList [.strong true (Inls.ofList [.text [.ch 0x78]]), .text [.esc 0x21]]),
                     .soft,
                     .image [0x69, 0x2E, 0x70, 0x6E, 0x67] [] true (Inls.ofList [.text [.ch 0x7A]]),
-                    .autolink 1 [0x2F, 0x2F, 0x65] ]),
+                    .autolink 1 [0x2F, 0x2F, 0x65],
+                    .fnref [0x42, 0x32] 1 2 ]),
                 .list { bullet := 0x2B, tight := true }
                   (Items.ofList [Blks.ofList [.para (Inls.ofList [.text [.uni 0]])],
                                  Blks.ofList [.para (Inls.ofList [.text [.ch 0x63]]), .quote (Blks.ofList [.hr 0x2A 3])]]) ],
             Blks.ofList
               [ .quote (Blks.ofList [.fence 0x7E 4 [0x72, 0x73] [[0x3C, 0x61, 0x3E], [], [0x20, 0x62]]]) ] ]),
-      .hr 0x2D 5 ],
-   [{ label := [0x52, 0x31], url := [0x78], title := [], angle := false, before := false }]⟩
+      .list { bullet := 0x2D, tight := true }
+        (Items.ofListT
+          [ (.unchecked, Blks.ofList [.para (Inls.ofList [.text [.ch 0x74]])]),
+            (.checked 0x78, Blks.ofList [.para (Inls.ofList [.code 1 [0x64]])]),
+            (.no, Blks.ofList [.para (Inls.ofList [.text [.ch 0x6E]])]) ]),
+      .table [.left, .center, .none]
+        [Inls.ofList [.text [.ch 0x61]], Inls.ofList [.emph true (Inls.ofList [.text [.ch 0x62]])], .nil]
+        [ [Inls.ofList [.text [.ch 0x31, .esc 0x7C]], .nil, Inls.ofList [.code 1 [0x63], .fnref [0x6E] 2 1]] ],
+      .htmlb [[0x3C, 0x64, 0x69, 0x76, 0x20, 0x69, 0x64, 0x3D, 0x78, 0x3E], [0x68, 0x69, 0x20, 0x2A, 0x61, 0x2A]],
+      .hr 0x2D 5 ]
+
+def sampleDoc : Doc :=
+  { blocks := sampleBlocks,
+    shadow := [{ label := [0x52, 0x31], url := [0x78], title := [], angle := false, before := false }],
+    notes := [ { name := [0x6E], total := 2, body := Inls.ofList [.text [.ch 0x4E, .ch 0x20], .strong false (Inls.ofList [.text [.ch 0x6F]])] },
+               { name := [0x42, 0x32], total := 1, body := Inls.ofList [.text [.ch 0x74, .ch 0x77, .ch 0x6F]] } ],
+    noteOrder := [1, 0],
+    unused := [ { name := [0x7A, 0x7A], total := 0, body := Inls.ofList [.text [.ch 0x75]] } ] }
 
 example : sampleDoc.ok = true := by decide +kernel
 
-example : sampleDoc.write.length = 213 := by decide +kernel
+example : sampleDoc.write.length = 358 := by decide +kernel
 example : Shape sampleDoc.toTree = true := by decide +kernel
+/-- The claimed positions of the sample lie inside `write d`, nest, are ordered and denote the text
+    their kinds claim (the C11 / C12 oracles of Comrak/Sourcepos.lean; the statement for every
+    canonical document, `Doc.ok d → Doc.posOk d`, is evaluated by the driver for each generated
+    document and reported by the harness, not proved). -/
+example : sampleDoc.posOk = true := by decide +kernel
+
+/-- The two recorded findings are visible on the model: comrak's trees for these documents are not
+    the trees the documents spell, and `Doc.ok` excludes them (tight list holding a table without
+    body rows before its end; an item whose text merely reads like a task marker). -/
+example : Doc.ok { blocks := Blks.ofList [.list { tight := true } (Items.ofList
+    [Blks.ofList [.table [.none] [Inls.ofList [.text [.ch 0x61]]] []], Blks.ofList [.para (Inls.ofList [.text [.ch 0x62]])]])] } = false := by
+  decide +kernel
+example : Doc.ok { blocks := Blks.ofList [.list { tight := true } (Items.ofList
+    [Blks.ofList [.para (Inls.ofList [.text [.esc 0x5B, .ch 0x78, .esc 0x5D, .ch 0x20, .ch 0x61]])]])] } = false := by
+  decide +kernel
 
 end Comrak.C03
